@@ -19,6 +19,17 @@ func main() {
 		devMain(os.Args[2:])
 	case "check":
 		checkMain(os.Args[2:])
+	case "baseline":
+		// snapshot of the sources the contracts were validated against (rename tolerance, rename.go)
+		repo := os.Getenv("VERIF_REPO")
+		if repo == "" {
+			repo = "/repo"
+		}
+		if err := snapshotBaseline(repo, "/verif/baseline"); err != nil {
+			fmt.Println("baseline:", err)
+			os.Exit(1)
+		}
+		fmt.Println("baseline refreshed from", repo)
 	default:
 		fmt.Println("unknown command", os.Args[1])
 		os.Exit(2)
